@@ -7,3 +7,10 @@ claim("C14", "translation_validation", "per-rule automata equivalence (grammar N
       "generated classes wire the stock simulators to that ATN (A5), C++ and Python rule functions have identical event sequences (K2), listener/context dispatch complete (K3).",
       "Trusted: antlr4 4.9.2 runtimes implement maximal-munch/first-rule lexing and ALL(*) parsing over the ATN they are given; ANTLR's left-recursion rewrite as documented.",
       "DESIGN.md 4.1-4.3, 5/C14")
+
+claim("C18", "other", "lexer-rule language analysis + NEWLINE-skeleton DFA closure on the grammar, tied to the shipped ATN by per-rule automata equivalence; position-taint lint on handwritten modules",
+      "Decides on the automata that (1) SPACE/COMMENT are the only skipped rules and no other token can contain blanks/line ends/'#', (2) NEWLINE, TAB, COMMENT, SPACE have exactly the stated languages, "
+      "(3) at every layout position of the NEWLINE skeleton an extra NEWLINE is absorbed and a final NEWLINE is optional, (4) handwritten code reads script content only through getText/typed accessors. "
+      "The positions the property excludes (array bodies, loop header to first body line) are reported as the structural NEWLINE edges.",
+      "Trusted: antlr4 runtime lexer semantics (longest match, first rule wins ties, skip). Not decided: nothing numeric is involved.",
+      "DESIGN.md 5/C18")
